@@ -308,10 +308,15 @@ def rule_literal_escaping(ctx: Ctx, rule: str) -> None:
         if fi.name == 'parse_extend':
             charvars.add('c')
         emitted: list[tuple[ast.AST, ast.AST]] = []  # (statement-ish node, value expr)
+        # locals that are handed to `<list>.append(..)` / a range check later: an assignment to one of them is an emission too
+        appended = {a.id for node in walk_no_nested(fi.node) if isinstance(node, ast.Call) and isinstance(node.func, ast.Attribute) and
+                    node.func.attr in ('append', '_sequence_range_check') for a in node.args if isinstance(a, ast.Name)} | \
+                   {node.value.id for node in walk_no_nested(fi.node) if isinstance(node, ast.Return) and isinstance(node.value, ast.Name)}
+        appended -= charvars
         for node in walk_no_nested(fi.node):
             if isinstance(node, ast.Call) and isinstance(node.func, ast.Attribute) and node.func.attr == 'append' and node.args:
                 emitted.append((node, node.args[0]))
-            elif isinstance(node, ast.Assign) and any(isinstance(t, ast.Name) and t.id == 'value' for t in node.targets):
+            elif isinstance(node, ast.Assign) and any(isinstance(t, ast.Name) and t.id in appended for t in node.targets):
                 emitted.append((node, node.value))
             elif isinstance(node, ast.Assign) and any(isinstance(t, ast.Subscript) and isinstance(t.value, ast.Name) and
                                                       t.value.id in ('current', 'extended') for t in node.targets):
